@@ -180,3 +180,51 @@ Definition open_verdict (has_key : bool) (L : N) (hdr tail : list byte) (decodes
   | OpenErr e => Some e
   | OpenOk _ => None
   end.
+
+(** * OpenFile under the file options that change the open stages (file.go:72-131)
+
+    SkipMagicBytes skips the header stage.  With OptimisticRead the read of the
+    tail covers min(ReadBufferSize, L) bytes, but at least the 8 bytes of footer
+    length + magic ([tail_read_size]; the read starts at L - size, a negative
+    offset is an error of the io.ReaderAt), the length and the magic are the last
+    8 bytes of that buffer, and a footer that lies inside the buffer is not
+    requested again (so it cannot be out of range).  SkipPageIndex,
+    SkipBloomFilters, PrefetchBloomFilters and the read mode act after the
+    footer was decoded and do not appear.  [open_core_cfg false false] is
+    [open_core] (ReaderProofs.open_core_cfg_tail_stages). *)
+Definition tail_read_size (optimistic : bool) (rbs L : N) : N :=
+  let n := N.min rbs L in
+  if optimistic && (8 <=? n) then n else 8.
+
+Section OpenCfg.
+  Variable M : Type.
+
+  Definition open_core_cfg (skip_magic optimistic : bool) (rbs : N) (has_key : bool) (L : N)
+      (hdr tail : list byte) (decode_at : N -> N -> option M) : open_res M :=
+    if negb skip_magic && (L <? 4) then OpenErr OShortHeader
+    else if negb skip_magic && negb (is_magic hdr) then OpenErr OBadHeaderMagic
+    else if negb skip_magic && (beqb hdr magic_pare && negb has_key) then OpenErr ONeedDecryption
+    else
+      let ts := tail_read_size optimistic rbs L in
+      if L <? ts then OpenErr OShortTail
+      else if negb (is_magic (skipn 4 tail)) then OpenErr OBadTailMagic
+      else
+        let fs := le32 (firstn 4 tail) in
+        if negb (fs <=? ts - 8) && (L <? fs + 8) then OpenErr OFooterRange
+        else match decode_at (L - 8 - fs) fs with
+             | None => OpenErr OFooterDecode
+             | Some m => OpenOk m
+             end.
+
+  Variable decode : list byte -> option M.
+
+  Definition open_file_cfg (skip_magic optimistic : bool) (rbs : N) (has_key : bool) (f : list byte) : open_res M :=
+    open_core_cfg skip_magic optimistic rbs has_key (flen f) (slice f 0 4) (slice f (flen f - 8) 8)
+                  (fun off len => decode (slice f off len)).
+End OpenCfg.
+
+Definition open_verdict_cfg (skip_magic optimistic : bool) (rbs : N) (has_key : bool) (L : N) (hdr tail : list byte) (decodes : bool) : option open_err :=
+  match open_core_cfg unit skip_magic optimistic rbs has_key L hdr tail (fun _ _ => if decodes then Some tt else None) with
+  | OpenErr e => Some e
+  | OpenOk _ => None
+  end.
